@@ -47,6 +47,7 @@ type c19HdrAtom struct {
 	Key     string
 	Vals    []string
 	Invalid bool // not a valid net/http message: classification only
+	Solo    bool // used on its own only, not combined with a second atom (thorough tier)
 }
 
 var c19Big = strings.Repeat("v", 8192)
@@ -129,16 +130,24 @@ var c19CLSpellings = [][]string{
 // All of them are valid net/http messages (a key without values stands for no field).
 var c19ReqMultiAtoms = func() []c19HdrAtom {
 	var l []c19HdrAtom
+	solo := false
 	add := func(key string, vals ...string) {
-		l = append(l, c19HdrAtom{ID: fmt.Sprintf("%s=%q", key, vals), Key: key, Vals: vals})
+		l = append(l, c19HdrAtom{ID: fmt.Sprintf("%s=%q", key, vals), Key: key, Vals: vals, Solo: solo})
 	}
 	te := []string{"trailers", "gzip"}
+	// combined with a second atom in the thorough tier
 	add("Te")
 	for _, a := range te {
 		for _, b := range te {
 			add("Te", a, b)
 		}
 	}
+	add("User-Agent", "ua/1", "ua/2")
+	add("User-Agent", "", "ua/2")
+	add("X-A")
+	add("Connection", "close", "keep-alive")
+	// on their own only
+	solo = true
 	for _, a := range te {
 		for _, b := range te {
 			for _, c := range te {
@@ -153,12 +162,8 @@ var c19ReqMultiAtoms = func() []c19HdrAtom {
 	add("Te", "Trailers")
 	add("Te", "trailers", "")
 	add("User-Agent")
-	add("User-Agent", "ua/1", "ua/2")
-	add("User-Agent", "", "ua/2")
 	add("User-Agent", "ua/1", "")
-	add("X-A")
 	add("X-A", "1", "2", "1")
-	add("Connection", "close", "keep-alive")
 	add("Accept-Encoding", "br", "gzip")
 	add("Cookie", "a=1", "b=2", "c=3")
 	return l
@@ -238,6 +243,12 @@ func c19HdrChoices(atoms []c19HdrAtom, k int) [][]int {
 		}
 	next:
 		for i := from; i < len(atoms); i++ {
+			if atoms[i].Solo {
+				if len(cur) == 0 {
+					out = append(out, []int{i})
+				}
+				continue
+			}
 			for _, c := range cur {
 				if strings.EqualFold(atoms[c].Key, atoms[i].Key) {
 					continue next
@@ -622,8 +633,8 @@ func c19JudgeReqWire(m c19ReqMsg, req *http.Request, valid bool, werr error, wir
 	}
 	for _, a := range m.Hdr {
 		// a key with no or several values: how many of them are fields of the message (part
-		// writer-request only: the connection scenarios multiply the classes of their streams)
-		if at := c19ReqHdrAtoms[a]; where == "" && at.Key != "" && len(at.Vals) != 1 && !strings.EqualFold(at.Key, "Content-Length") {
+		// writer-request, messages with one atom only: combinations multiply the classes)
+		if at := c19ReqHdrAtoms[a]; where == "" && len(m.Hdr) == 1 && at.Key != "" && len(at.Vals) != 1 && !strings.EqualFold(at.Key, "Content-Length") {
 			n := 0
 			for _, f := range want {
 				if f.N == strings.ToLower(at.Key) {
